@@ -122,6 +122,26 @@ def check_flag_inherited(pe, res, what):
     for nm, d in (('*2', res * 2), ('+other', res + other), ('sin', np.sin(res)), ('other/res', other / res)):
         if not bool(d.reweighted):
             return '%s: flag lost by derived observable %s' % (what, nm)
+    # matrix routes (single-chain results only: the jackknife-based functions need one chain)
+    if len(res.names) == 1:
+        plain = pe.Obs([res.deltas[res.names[0]] * 0.5 + 2.0], list(res.names), idl=[res.idl[res.names[0]]])
+        m = np.array([[res, plain], [plain, plain]], dtype=object)
+        p2 = np.array([[plain, plain], [plain, 2.0 * plain]], dtype=object)
+        cm = np.array([[pe.CObs(plain, res), pe.CObs(plain, plain)], [pe.CObs(plain, plain), pe.CObs(plain, plain)]], dtype=object)
+        routes = (('linalg.matmul', lambda: pe.linalg.matmul(m, p2)[0, 0]), ('linalg.jack_matmul', lambda: pe.linalg.jack_matmul(m, p2)[0, 0]),
+                  ('linalg.jack_matmul (second factor)', lambda: pe.linalg.jack_matmul(p2, m)[0, 0]), ('linalg.einsum', lambda: pe.linalg.einsum('ij,jk->ik', m, p2)[0, 1]),
+                  ('linalg.einsum (scalar)', lambda: pe.linalg.einsum('ij,ji', p2, m)), ('linalg.inv', lambda: pe.linalg.inv(m + 3 * np.eye(2))[1, 1]),
+                  ('linalg.jack_matmul (complex)', lambda: pe.linalg.jack_matmul(cm, p2)[0, 0].real))
+        for nm, f in routes:
+            try:
+                d = f()
+            except Exception as e:
+                return '%s: %s raised %s: %s' % (what, nm, type(e).__name__, e)
+            if not bool(d.reweighted):
+                return '%s: flag lost by %s' % (what, nm)
+        clean = pe.linalg.jack_matmul(p2, p2)[0, 0]
+        if bool(clean.reweighted):
+            return '%s: jack_matmul of observables that were never reweighted carries the flag' % what
     return None
 
 
@@ -242,10 +262,7 @@ def run_rw(pe, acc, case):
                 sig = 'reweight:%s:%s' % ('all' if allc else 'own', form)
                 try:
                     if form == 'method':
-                        if allc:
-                            res = [pe.reweight(w, [o], all_configs=True)[0]]
-                        else:
-                            res = [o.reweight(w)]
+                        res = [o.reweight(w, all_configs=True)] if allc else [o.reweight(w)]      # the method documents all_configs as well
                         exps = [exp]
                     elif form == 'list':
                         res = pe.reweight(w, [o, o2], all_configs=allc)
